@@ -95,7 +95,7 @@ class Labels(Machine):
                        "remove_label_legal", "remove_label_illegal", "chained_selection", "non_ascii_label",
                        "labeller_array", "labeller_pointcloud", "labeller_labelled_graph", "labeller_wrong_size",
                        "labeller_via_manager", "labeller_3d", "labeller_commutes_checked",
-                       "caller_reuses_constructor_buffers", "with_labels_in_other_order", "selection_of_nothing_refused", "with_labels_naming_a_label_twice", "uncovered_point_refused_at_construction",
+                       "caller_reuses_constructor_buffers", "with_labels_in_other_order", "selection_of_nothing_refused", "with_labels_naming_a_label_twice", "uncovered_point_refused_at_construction", "group_with_an_empty_label_kept",
                        "add_label_with_empty_index_set", "graph_with_self_loop") + tuple("ran_" + n for n in LABELLERS)
 
     @classmethod
@@ -325,6 +325,15 @@ class Labels(Machine):
             arg = list(L) + [L[op["seed"] % len(L)], L[0]]
             permuted = True
             self.ctx.probe("with_labels_naming_a_label_twice")
+        if not set(i for nm_, ix_ in m.labels if nm_ in set(L) for i in ix_):
+            # only labels without points were asked for: no point, no graph - refused like a selection of nothing
+            try:
+                G.with_labels(arg)
+            except Exception:
+                self.ctx.probe("selection_of_empty_labels_only_refused")
+                return
+            self.ctx.fail("selection", "selection_without_points_returned_a_graph", "with_labels(%r)" % (arg,))
+            return
         try:
             R = G.with_labels(arg)
         except Exception as ex:
@@ -346,12 +355,20 @@ class Labels(Machine):
         if not L or len(L) >= len(m.labels):
             return
         arg = L[0] if len(L) == 1 and op["seed"] & 1 else list(L)
+        keep = [nm for nm in m.names() if nm not in L]
+        if not set(i for nm_, ix_ in m.labels if nm_ in set(keep) for i in ix_):
+            try:
+                G.without_labels(arg)
+            except Exception:
+                self.ctx.probe("selection_of_empty_labels_only_refused")
+                return
+            self.ctx.fail("selection", "selection_without_points_returned_a_graph", "without_labels(%r)" % (arg,))
+            return
         try:
             R = G.without_labels(arg)
         except Exception as ex:
             self.ctx.fail("selection", "without_labels_raised", "without_labels(%r) on %r: %r" % (arg, m.names(), ex))
             return
-        keep = [nm for nm in m.names() if nm not in L]
         if len(keep) >= 3:
             self.ctx.probe("without_labels_ge3_remaining")
         em = m.select(set(keep))
@@ -360,6 +377,15 @@ class Labels(Machine):
 
     def _op_get(self, op, G, m):
         nm, ix = m.labels[op["k"] % len(m.labels)]
+        if not ix:
+            # a label without points cannot be read as a graph (there is no graph without vertices)
+            try:
+                G.get_label(nm)
+            except Exception:
+                self.ctx.probe("selection_of_empty_labels_only_refused")
+                return
+            self.ctx.fail("selection", "selection_without_points_returned_a_graph", "get_label(%r)" % (nm,))
+            return
         try:
             R = G.get_label(nm)
         except Exception as ex:
@@ -411,11 +437,13 @@ class Labels(Machine):
                           "add_label(%r, %r) on labels %r leaves points %r without any label" % (nm, ix, m.labels, sorted(set(range(n)) - covered)))
             return
         if empty:
-            self._compare(R, em, "add_label_empty", strict_order=not existing)
+            if self._compare(R, em, "add_label_empty", strict_order=True):
+                # a group that carries a label without points is a group like any other for what follows
+                self.ctx.probe("group_with_an_empty_label_kept")
+                self._put(R, em, op["dst"])
             return
-        if self._compare(R, em, "add_label", strict_order=not existing) and not existing:
-            self._put(R, em, op["dst"])
-        elif existing and list(R.labels) == em.names():
+        # (giving an existing label other points does not move it: "the labels in their original order")
+        if self._compare(R, em, "add_label", strict_order=True):
             self._put(R, em, op["dst"])
 
     def _op_remove(self, op, G, m):
